@@ -1,16 +1,19 @@
 #!/bin/bash
-# Applies a seeded change to /repo, runs the quick checks of the given properties, reverts.
+# Applies a seeded change to the repository, runs the quick checks of the given properties, reverts.
 # usage: tools/mutant_eval.sh <patch.diff> <prop> [<prop>...]      (VERIF_SEED honoured)
+# The repository is $REPO (default /repo); with REPO pointing at a scratch copy and this script run from a snapshot of
+# /verif (vp run --with-repo) several evaluations can run side by side without touching /repo or /verif.
 # prints one line per check: <prop> exit=<code> violations=<n> first-oracle=<...>
-cd "$(dirname "$0")/.."
+ROOT="$(cd "$(dirname "$0")/.." && pwd)"; cd "$ROOT"
+export REPO=${REPO:-/repo}
 patch=$(realpath "$1"); shift
-if ! git -C /repo diff --quiet; then echo "/repo has uncommitted changes; refusing"; exit 2; fi
-git -C /repo apply "$patch" || { echo "patch does not apply"; exit 2; }
-rm -rf build/tmp/evidence.bak; cp -r evidence build/tmp/evidence.bak
-# on exit: revert /repo, restore the evidence, drop the traces of this evaluation and REBUILD (otherwise build/*/vsim stays the mutated binary)
-trap 'git -C /repo checkout -- . ; rm -rf /verif/evidence; cp -r /verif/build/tmp/evidence.bak /verif/evidence; find /verif/replays -name "*.trace" -newer /tmp/.mutant_eval_stamp -delete 2>/dev/null; make -C /verif -j16 FLAVOR=plain >/dev/null 2>&1; make -C /verif -j16 FLAVOR=san >/dev/null 2>&1; make -C /verif -j16 FLAVOR=dbg >/dev/null 2>&1' EXIT
-touch /tmp/.mutant_eval_stamp
+if ! git -C $REPO diff --quiet; then echo "$REPO has uncommitted changes; refusing"; exit 2; fi
+git -C $REPO apply "$patch" || { echo "patch does not apply"; exit 2; }
 mkdir -p build/tmp
+rm -rf build/tmp/evidence.bak; cp -r evidence build/tmp/evidence.bak
+stamp=build/tmp/.mutant_eval_stamp; touch $stamp
+# on exit: revert the repository, restore the evidence, drop the traces of this evaluation and REBUILD (otherwise build/*/vsim stays the mutated binary)
+trap 'git -C $REPO checkout -- . ; rm -rf "$ROOT/evidence"; cp -r "$ROOT/build/tmp/evidence.bak" "$ROOT/evidence"; find "$ROOT/replays" -name "*.trace" -newer "$ROOT/$stamp" -delete 2>/dev/null; make -C "$ROOT" -j16 FLAVOR=plain >/dev/null 2>&1; make -C "$ROOT" -j16 FLAVOR=san >/dev/null 2>&1; make -C "$ROOT" -j16 FLAVOR=dbg >/dev/null 2>&1' EXIT
 for p in "$@"; do
   ./check $p > build/tmp/mut-$p.log 2>&1; rc=$?
   n=$(grep -c "^VIOLATION" build/tmp/mut-$p.log)
